@@ -106,8 +106,9 @@ Definition run_recv_counted (holds nontrivial : caseRecv -> bool) (cs : list cas
 
 (** ** C03 on the implementation's errors for receivers parsed from a meta item: every leaf is
     spanned; the span lies inside the input item, equals the range of some node of the input
-    (never a made-up coarser range), and - when the leaf is located under a name - lies inside a
-    top-level item with that name. *)
+    (never a made-up coarser range), is the mistake's own node for the kinds whose node can be told
+    from the message, and - when the leaf is located under a name - lies inside a top-level item
+    with that name. *)
 Fixpoint expr_spans (e : expr) : list span :=
   match e with
   | ELit i _ | EOther i _ | ENeg i _ => [i_span i]
@@ -125,6 +126,26 @@ Fixpoint node_spans (n : nested) : list span :=
   | NNameValue i p e => i_span i :: i_span (p_info p) :: expr_spans e
   end.
 
+(** the mistake's own node, by kind ("inside the offending item or value itself"): a literal where a
+    named item is required is reported at a literal (a literal item, or the value of an item); a
+    surplus item of a one-item list at an item that is not the first of its list *)
+Fixpoint lit_spans (n : nested) : list span :=
+  match n with
+  | NLit i _ => [i_span i]
+  | NList _ _ _ items => flat_map lit_spans items
+  | NNameValue _ _ e => expr_spans e
+  | _ => []
+  end.
+Fixpoint surplus_spans (n : nested) : list span :=
+  match n with
+  | NList _ _ _ items => (map (fun it => i_span (ninfo it)) (tl items) ++ flat_map surplus_spans items)%list
+  | _ => []
+  end.
+Definition kind_blame_ok (input : nested) (body : string) (s : span) : bool :=
+  if prefix "Unexpected meta-item format `literal`" body then existsb (span_eqb s) (lit_spans input)
+  else if prefix "Too many items" body then existsb (span_eqb s) (surplus_spans input)
+  else true.
+
 (** "name" or "name[3]" -> "name" *)
 Fixpoint before_bracket (s : string) : string :=
   match s with
@@ -141,12 +162,13 @@ Definition top_items (n : nested) : list nested :=
   match n with NList _ _ _ items => items | _ => [] end.
 
 Definition leaf_span_ok (input : nested) (l : string * option string * option span) : bool :=
-  let '(_, locs, sp) := l in
+  let '(body, locs, sp) := l in
   match sp with
   | None => false
   | Some s =>
       span_inside s (i_span (ninfo input))
       && existsb (span_eqb s) (node_spans input)
+      && kind_blame_ok input body s
       && match locs with
          | None => true
          | Some path =>
